@@ -20,6 +20,7 @@ def errOf : String → Except String Err
 def errName : Err → String
   | .os n => s!"os:{n}" | .value => "value" | .interrupt => "interrupt" | .user => "user"
   | .alreadyWritten => "alreadyWritten" | .alreadyOpen => "alreadyOpen" | .noTxn => "noTxn"
+  | .tmpClash => "tmpClash"
 
 def evJson : Ev String → Json
   | .open_ p => Json.arr #["open", p] | .ser => Json.arr #["serialize", ""]
